@@ -1,3 +1,4 @@
+CONSTANT Cont <- StdWorld
 CONSTANT MaxLen = 3
 INIT Init
 NEXT Next
